@@ -87,7 +87,12 @@ def st_poison(draw):
     elif clause == 'update-target':
         q = "%s %s = 'z'" % (upd, draw(st.sampled_from(['a3', 'a[3]'])))
     elif clause == 'join-a':
-        q = '%s a1, b2 %s b on a3 == b1' % (sel, kw('JOIN'))
+        # one or several key pairs; the missing field (a3) at any position of the ON list, in SELECT and UPDATE
+        on = draw(st.sampled_from(['a3 == b1', 'a3 == b1', 'a1 == b1 and a3 == b2', 'a3 == b2 and a1 == b1', 'a2 == b1 and a3 == b2', 'a2 == b2 and a1 == b1 and a3 == b1', 'NR == bNR and a3 == b1']))
+        if draw(st.integers(0, 3)) == 0:
+            q = "%s a1 = 'u' %s b on %s" % (upd, kw(draw(st.sampled_from(['JOIN', 'LEFT JOIN']))), on)
+        else:
+            q = '%s a1, b2 %s b on %s' % (sel, kw(draw(st.sampled_from(['JOIN', 'JOIN', 'LEFT JOIN', 'INNER JOIN']))), on)
     elif clause == 'join-b':
         q = '%s a1, b2 %s b on a1 == b2' % (sel, kw('LEFT JOIN'))
     elif clause == 'like-none':
